@@ -47,6 +47,12 @@ def blocks(v, rng):
         (f"({v}*{v} - 4)/({v} - 2)", 2.0),
         (f"(exp(2*{v}) - 1)/(exp({v}) - 1)", 0.0),
         (f"({v}**3 - 8)/({v} - 2)", 2.0),
+        # the singular point is where the variable meets a parameter (k = 3) or a product of parameters (a*k = 4.5)
+        (f"({v} - k)/(1 - exp(-({v} - k)/a))", 3.0),
+        (f"sin({v} - k)/({v} - k)", 3.0),
+        (f"({v} - k)*log(abs({v} - k))", 3.0),
+        (f"({v}*{v} - k*k)/({v} - k)", 3.0),
+        (f"({v} - a*k)/(exp({v} - a*k) - 1)", 4.5),
     ]
 
 
@@ -93,7 +99,7 @@ def main(argv=None):
     core.props_or_violation(rep)
     drv = core.Driver()
     rng = random.Random(a.seed)
-    n = a.n or (28 if a.tier == "quick" else 200)
+    n = a.n or (36 if a.tier == "quick" else 200)
     core.CASE_SECONDS = 120
     n_single = 0
     for i in range(n):
@@ -113,7 +119,7 @@ def main(argv=None):
         level="proof",
         rule="one monitored expression built from 0-3 removable-singularity blocks (x/(exp(x)-1), sin(x)/x, (x-a)/(exp(x)-exp(a)), "
              "x/(b(exp(x)-1)), a shifted gate rate, (exp(x)-1)/x, and four that are not zeros of a denominator: x log|x|, (x-a) log|x-a|, x sin(1/x), "
-             "(x+47) log|x+47|; and three quotients with a common factor: (x²-4)/(x-2), (e^{2x}-1)/(e^x-1), (x³-8)/(x-2)) in one or two states, in 35% of the models through an intermediate u = x - 1, combined by + or *, next to a regular and an infinite "
+             "(x+47) log|x+47|; three quotients with a common factor: (x²-4)/(x-2), (e^{2x}-1)/(e^x-1), (x³-8)/(x-2); and five whose singular point is a parameter or a product of parameters: (x-k)/(1-exp(-(x-k)/a)), sin(x-k)/(x-k), (x-k) log|x-k|, (x²-k²)/(x-k), (x-ak)/(exp(x-ak)-1)) in one or two states, in 35% of the models through an intermediate u = x - 1, combined by + or *, next to a regular and an infinite "
              "(b/x) expression; single-component and split layouts (expression in a component without states); values on and off every "
              "singular point; non-trivial = at least one removable singularity",
         trusted_base=["Coq 8.16.1 kernel", "sympy.singularities / limit as oracles (limits re-checked with mpmath, 50 digits)", "numpy as evaluator"],
